@@ -23,11 +23,11 @@ Lemma updN_bound (l : list N) i g M M' :
   forall x, In x (updN l i g) -> x <= M'.
 Proof.
   intros Hl HM Hg x Hx. apply In_nth_error in Hx. destruct Hx as [k Hk].
-  assert (Hk' : nthN (updN l i g) (N.of_nat k) = Some x) by (unfold nthN; rewrite Nat2N.id; exact Hk).
+  assert (Hk' : nthN (updN l i g) (N.of_nat k) = Some x) by (rewrite nthN_eq, Nat2N.id; exact Hk).
   destruct (N.eq_dec i (N.of_nat k)) as [->|Hne].
   - rewrite nthN_updN_same in Hk'. destruct (nthN l (N.of_nat k)) as [y|] eqn:Hy; [|discriminate].
-    injection Hk' as <-. apply Hg, Hl. unfold nthN in Hy. eapply nth_error_In. exact Hy.
-  - rewrite nthN_updN_other in Hk' by exact Hne. etransitivity; [|exact HM]. apply Hl. unfold nthN in Hk'. eapply nth_error_In. exact Hk'.
+    injection Hk' as <-. apply Hg, Hl. rewrite nthN_eq in Hy. eapply nth_error_In. exact Hy.
+  - rewrite nthN_updN_other in Hk' by exact Hne. etransitivity; [|exact HM]. apply Hl. rewrite nthN_eq in Hk'. eapply nth_error_In. exact Hk'.
 Qed.
 Lemma go_increase_ok bals i d x :
   nthN bals i = Some x -> x + d < two64 -> go_increase_balance bals i d = Ok (updN bals i (fun b => b + d)).
@@ -43,7 +43,7 @@ Proof.
   rewrite (setN_updN bals i (fun b => b - d) x Hx). reflexivity.
 Qed.
 Lemma nthN_bound (l : list N) i x M : (forall y, In y l -> y <= M) -> nthN l i = Some x -> x <= M.
-Proof. intros H Hx. apply H. unfold nthN in Hx. eapply nth_error_In. exact Hx. Qed.
+Proof. intros H Hx. apply H. rewrite nthN_eq in Hx. eapply nth_error_In. exact Hx. Qed.
 
 Section Slash.
   Variable E : Env.
@@ -129,8 +129,8 @@ Section Slash.
     assert (Hsi : si < N.of_nat (length (slashings st))) by (rewrite Hsl; apply N.mod_lt; lia).
     destruct (nthN_lt_Some _ _ Hsi) as [prev Hprev]. rewrite Hprev. cbn [of_opt bind].
     assert (Heb : v_effective_balance (g v0) <= 2 ^ 50).
-    { rewrite Heff. etransitivity; [apply (sb_eff E st Hb)|apply (cs_maxeb_hi E Hc)]. unfold nthN in Hv0. eapply nth_error_In. exact Hv0. }
-    assert (Hprevb : prev < 2 ^ 63) by (apply (sb_slashings E st Hb); unfold nthN in Hprev; eapply nth_error_In; exact Hprev).
+    { rewrite Heff. etransitivity; [apply (sb_eff E st Hb)|apply (cs_maxeb_hi E Hc)]. rewrite nthN_eq in Hv0. eapply nth_error_In. exact Hv0. }
+    assert (Hprevb : prev < 2 ^ 63) by (apply (sb_slashings E st Hb); rewrite nthN_eq in Hprev; eapply nth_error_In; exact Hprev).
     change (2 ^ 50) with 1125899906842624 in *. change (2 ^ 63) with 9223372036854775808 in *.
     rewrite add64_small by (unfold two64; lia).
     (* penalty *)
